@@ -254,7 +254,7 @@ theorem nodeRunnable_spec {wf : Wf} {w : World} {ns : NSMap} {n : NodeId} (h : N
           subst hbe
           simp only [List.isEmpty_nil, if_true]
           rw [setN_self]
-          exact ⟨h, fun _ _ => rfl, rfl, fun _ => rfl, fun _ => ⟨hb, hnu⟩, fun hs => absurd hs (by simp)⟩
+          exact ⟨h, fun _ _ => rfl, rfl, fun _ => rfl, fun _ => ⟨hb, hnu⟩, fun hs => by rw [hst] at hs; exact absurd hs (by simp)⟩
     · -- some predecessor is still busy
       refine ⟨h, fun _ _ => rfl, rfl, fun _ => rfl, ?_, fun _ => Or.inl rfl⟩
       intro hne
@@ -262,5 +262,152 @@ theorem nodeRunnable_spec {wf : Wf} {w : World} {ns : NSMap} {n : NodeId} (h : N
       intro hbn
       rw [hl.unstarted hbn] at hne
       exact absurd rfl hne
+
+/-! ### the scan of `sorted_nodes` -/
+
+/-- a task handed to the dispatcher belongs to a node that was legitimately started -/
+def TaskOK (ns : NSMap) (j : Job) : Prop :=
+  (ns.get j.1).blk ≠ none ∧ (ns.get j.1).unrunnable = false ∧ j.2 ∈ (ns.get j.1).queued
+
+structure ScanSt (wf : Wf) (w : World) (pre : List NodeId) (ns : NSMap) (nst : List NodeId)
+    (tasks : List Job) : Prop where
+  inv : NInv wf w ns
+  upToDate : ∀ p, p ∈ pre → p ∈ nst ∨ Fix w (ns.get p)
+  tasksOk : ∀ j, j ∈ tasks → j.1 ∈ pre ∧ TaskOK ns j
+
+/-- `sorted` lists every node once, predecessors first -/
+structure TopoOrder (wf : Wf) (sorted : List NodeId) : Prop where
+  nodup : sorted.Nodup
+  before : ∀ l1 x l2, sorted = l1 ++ x :: l2 → ∀ p, p ∈ wf.preds x → p ∈ l1
+
+theorem scan_cons (wf : Wf) (w : World) (n : NodeId) (rest : List NodeId) (ns : NSMap) (nst : List NodeId)
+    (tasks : List Job) :
+    scan wf w (n :: rest) ns nst tasks =
+      if (nodeDone w ns n).1 = true then scan wf w rest (nodeDone w ns n).2 nst tasks
+      else if (wf.preds n).any (fun p => nst.contains p) = true then ((nodeDone w ns n).2, tasks)
+      else scan wf w rest (nodeRunnable wf w (nodeDone w ns n).2 n).1
+        (if ((nodeDone w ns n).2.get n).started = true then nst else n :: nst)
+        (tasks ++ (nodeRunnable wf w (nodeDone w ns n).2 n).2.map (fun i => (n, i))) := rfl
+
+theorem scan_spec {wf : Wf} {w : World} {sorted : List NodeId} (ht : TopoOrder wf sorted) :
+    ∀ (rest pre : List NodeId) (ns : NSMap) (nst : List NodeId) (tasks : List Job),
+      sorted = pre ++ rest → ScanSt wf w pre ns nst tasks →
+      NInv wf w (scan wf w rest ns nst tasks).1 ∧
+      ∀ j, j ∈ (scan wf w rest ns nst tasks).2 → TaskOK (scan wf w rest ns nst tasks).1 j := by
+  intro rest
+  induction rest with
+  | nil =>
+    intro pre ns nst tasks _ hs
+    exact ⟨hs.inv, fun j hj => (hs.tasksOk j hj).2⟩
+  | cons n rest ih =>
+    intro pre ns nst tasks hsorted hs
+    have hnpre : n ∉ pre := by
+      intro hmem
+      have hnd := ht.nodup
+      rw [hsorted] at hnd
+      have := (List.nodup_append.mp hnd).2.2 n hmem n (by simp)
+      exact this rfl
+    have hsorted' : sorted = (pre ++ [n]) ++ rest := by rw [hsorted]; simp
+    have hpreds : ∀ p, p ∈ wf.preds n → p ∈ pre := ht.before pre n rest hsorted
+    -- after `node.done`
+    have hinv1 : NInv wf w (upd w ns n) := ninv_upd hs.inv n
+    have hfixn : Fix w ((upd w ns n).get n) := by rw [upd_get_same]; exact fix_updateStatus w _
+    have hsame : ∀ m, m ∈ pre → (upd w ns n).get m = ns.get m := by
+      intro m hm; apply upd_get_ne; intro hmn; subst hmn; exact hnpre hm
+    have hup1 : ∀ p, p ∈ pre → p ∈ nst ∨ Fix w ((upd w ns n).get p) := by
+      intro p hp; rw [hsame p hp]; exact hs.upToDate p hp
+    have htk1 : ∀ j, j ∈ tasks → j.1 ∈ pre ∧ TaskOK (upd w ns n) j := by
+      intro j hj
+      obtain ⟨a, b⟩ := hs.tasksOk j hj
+      refine ⟨a, ?_⟩
+      unfold TaskOK; rw [hsame j.1 a]; exact b
+    rw [scan_cons]
+    have e2 : (nodeDone w ns n).2 = upd w ns n := rfl
+    have e1 : (nodeDone w ns n).1 = ((upd w ns n).get n).isDone := rfl
+    rw [e2, e1]
+    by_cases hd : ((upd w ns n).get n).isDone = true
+    · rw [if_pos hd]
+      apply ih (pre ++ [n]) _ _ _ hsorted'
+      refine ⟨hinv1, ?_, ?_⟩
+      · intro p hp
+        rcases List.mem_append.mp hp with hp | hp
+        · exact hup1 p hp
+        · simp at hp; subst hp; exact Or.inr hfixn
+      · intro j hj
+        obtain ⟨a, b⟩ := htk1 j hj
+        exact ⟨List.mem_append_left _ a, b⟩
+    · rw [if_neg hd]
+      by_cases hbrk : (wf.preds n).any (fun p => nst.contains p) = true
+      · rw [if_pos hbrk]
+        exact ⟨hinv1, fun j hj => (htk1 j hj).2⟩
+      · rw [if_neg hbrk]
+        have hfixp : ∀ p, p ∈ wf.preds n → Fix w ((upd w ns n).get p) := by
+          intro p hp
+          rcases hup1 p (hpreds p hp) with hnstp | hf
+          · exfalso; apply hbrk
+            exact List.any_eq_true.mpr ⟨p, hp, by simpa using hnstp⟩
+          · exact hf
+        have hd' : ((upd w ns n).get n).isDone = false := by
+          cases hx : ((upd w ns n).get n).isDone
+          · rfl
+          · exact absurd hx hd
+        have spec := nodeRunnable_spec hinv1 hd' hfixp
+        apply ih (pre ++ [n]) _ _ _ hsorted'
+        refine ⟨spec.inv, ?_, ?_⟩
+        · intro p hp0
+          rcases List.mem_append.mp hp0 with hp | hp
+          · have hpn : p ≠ n := by intro e; rw [e] at hp; exact hnpre hp
+            rw [spec.frame p hpn]
+            rcases hup1 p hp with a | a
+            · left; split
+              · exact a
+              · exact List.mem_cons_of_mem _ a
+            · exact Or.inr a
+          · simp at hp; subst hp
+            cases hst : ((upd w ns p).get p).started
+            · left; simp
+            · right; rw [spec.fix hst]; exact hfixn
+        · intro j hj
+          rcases List.mem_append.mp hj with hj | hj
+          · obtain ⟨a, b⟩ := htk1 j hj
+            have hjn : j.1 ≠ n := by intro e; rw [e] at a; exact hnpre a
+            refine ⟨List.mem_append_left _ a, ?_⟩
+            unfold TaskOK; rw [spec.frame j.1 hjn]; exact b
+          · obtain ⟨i, hi, rfl⟩ := List.mem_map.mp hj
+            refine ⟨by simp, ?_⟩
+            have hne : (nodeRunnable wf w (upd w ns n) n).2 ≠ [] := List.ne_nil_of_mem hi
+            obtain ⟨a, b⟩ := spec.legit hne
+            refine ⟨a, b, ?_⟩
+            show i ∈ ((nodeRunnable wf w (upd w ns n) n).1.get n).queued
+            rw [← spec.tasks]; exact hi
+
+theorem mem_truncate {k : Option Nat} {tasks : List Job} {j : Job} (h : j ∈ truncate k tasks) : j ∈ tasks := by
+  unfold truncate at h
+  cases k with
+  | none => exact h
+  | some k => exact List.mem_of_mem_take h
+
+/-- `Submitter.get_runnable_tasks` keeps the invariant and returns only legitimate tasks -/
+theorem poll_spec {wf : Wf} {w : World} {sorted : List NodeId} (ht : TopoOrder wf sorted) (k : Option Nat)
+    {ns : NSMap} (h : NInv wf w ns) :
+    NInv wf w (poll wf k sorted w ns).1 ∧
+    ∀ j, j ∈ (poll wf k sorted w ns).2 → TaskOK (poll wf k sorted w ns).1 j := by
+  obtain ⟨a, b⟩ := scan_spec ht sorted [] ns [] [] (by simp)
+    ⟨h, fun p hp => absurd hp (by simp), fun j hj => absurd hj (by simp)⟩
+  exact ⟨a, fun j hj => b j (mem_truncate hj)⟩
+
+/-- from the theorems about `DiGraph.sorting`: the list it returns is such an order -/
+theorem topoOrder_of_sortFrom {wf : Wf} {sorted : List NodeId} (hw : wf.g.wip = [])
+    (hn : wf.g.nodes.Nodup) (h : sortFrom wf.g [] = some sorted) : TopoOrder wf sorted := by
+  obtain ⟨ht, hp⟩ := sortFrom_spec wf.g [] sorted h
+  simp only [if_true] at hp
+  refine ⟨hp.nodup_iff.mpr hn, ?_⟩
+  intro l1 x l2 hs p hp'
+  unfold Wf.preds at hp'
+  obtain ⟨e, he, rfl⟩ := List.mem_map.mp hp'
+  obtain ⟨he1, he2⟩ := List.mem_filter.mp he
+  rcases ht l1 x l2 hs e he1 (by simpa using he2) with a | a
+  · exact a
+  · rw [hw] at a; simp at a
 
 end PydraModel.Sched
